@@ -25,8 +25,16 @@ fn case_json(chip: &str, path: &str, hz: u32) -> Value {
 
 /// judge a decoded synthesiser word
 fn judge(chip: &str, path: &str, hz: u32, word: Option<u32>) -> Result<(), Failure> {
+    judge_word(chip, hz, word, &|| case_json(chip, path, hz), "")
+}
+
+/// the decode-and-compare oracle on a synthesiser word, wherever it was observed; `case` is the case file a
+/// failure carries (built only when there is one), `fp_suffix` is appended to the fingerprint ("" for the stateless sweep)
+pub fn judge_word(chip: &str, hz: u32, word: Option<u32>, case: &dyn Fn() -> Value, fp_suffix: &str) -> Result<(), Failure> {
+    let case_json = |_: &str, _: &str, _: u32| case();
+    let path = "";
     let Some(w) = word else {
-        return Err(Failure::new("freq-decode", case_json(chip, path, hz), "no frequency was programmed").with_fp(format!("freq-not-programmed/{chip}")));
+        return Err(Failure::new("freq-decode", case_json(chip, path, hz), "no frequency was programmed").with_fp(format!("freq-not-programmed/{chip}{fp_suffix}")));
     };
     if chip == "sx126x" {
         // |w*XTAL/2^25 - hz| <= XTAL/2^26   <=>   |2*w*XTAL - hz*2^26| <= XTAL
@@ -34,14 +42,14 @@ fn judge(chip: &str, path: &str, hz: u32, word: Option<u32>) -> Result<(), Failu
         if d > XTAL {
             let milli = (w as i128 * XTAL * 1000) >> 25;
             return Err(Failure::new("freq-decode", case_json(chip, path, hz), format!("SetRfFrequency word {w} decodes to {}.{:03} Hz, requested {hz} Hz: further than half a PLL step (0.477 Hz)", milli / 1000, milli % 1000))
-                .with_fp("freq-decode/sx126x/not-nearest-step"));
+                .with_fp(format!("freq-decode/sx126x/not-nearest-step{fp_suffix}")));
         }
     } else {
         // |w*XTAL/2^19 - hz| < 62   <=>   |w*XTAL - hz*2^19| < 62*2^19
         let d = (w as i128 * XTAL - ((hz as i128) << 19)).abs();
         if d >= 62i128 << 19 {
             let milli = (w as i128 * XTAL * 1000) >> 19;
-            return Err(Failure::new("freq-decode", case_json(chip, path, hz), format!("Frf {w} decodes to {}.{:03} Hz, requested {hz} Hz: 62 Hz or more away", milli / 1000, milli % 1000)).with_fp(format!("freq-decode/{chip}/62Hz-or-more")));
+            return Err(Failure::new("freq-decode", case_json(chip, path, hz), format!("Frf {w} decodes to {}.{:03} Hz, requested {hz} Hz: 62 Hz or more away", milli / 1000, milli % 1000)).with_fp(format!("freq-decode/{chip}/62Hz-or-more{fp_suffix}")));
         }
     }
     Ok(())
